@@ -1,5 +1,30 @@
-//! C02 harness (stub: not implemented yet).
+//! C02 — fetches respect the delegate threshold and never rewind delegate sigrefs.
+//! Runs the real `radicle_fetch::{pull, clone}` on real repositories (see `fetchlab`, harness/c01/src/lib.rs).
+use fetchlab::{gen, Lab, Prop};
+use verif_common::*;
+
 fn main() {
-    eprintln!("C02: harness not implemented");
-    std::process::exit(3);
+    let mut ctx = Ctx::from_args("C02");
+    let mut lab = Lab::new();
+    let threads = std::env::var("FETCHLAB_THREADS").ok().and_then(|t| t.parse().ok()).unwrap_or(8);
+    let (fixed, is_replay) = ctx.fixed_inputs();
+    for e in lab.run_many(&fixed, Prop::C02, threads) {
+        ctx.count("corpus-or-replay");
+        ctx.record(&e.line, e.outcome);
+    }
+    if !is_replay {
+        let mut rng = ctx.rng();
+        let cases = gen::c02_cases(&mut rng, ctx.quick());
+        for chunk in cases.chunks(64) {
+            for e in lab.run_many(chunk, Prop::C02, threads) {
+                if e.setup_error.is_some() {
+                    // the generator composed ops that refer to something an earlier op removed: not a case
+                    ctx.count("generator-discarded");
+                    continue;
+                }
+                ctx.record(&e.line, e.outcome);
+            }
+        }
+    }
+    ctx.finish(gen::C02_RULE, false);
 }
